@@ -125,15 +125,15 @@ theorem i18n_default_lang (langs : List (String × LangMap)) (dl : String) (code
     without `WithLangKey`, any tables, any default language) the global formatter is the one the last
     call describes: it reads the language under that call's key from this execution's context. -/
 theorem last_installation_wins (base : String → String → List (String × String) → String)
-    (hist : List Install) (i : Install) (ctx : List (String × String)) :
-    installedFmt base (hist ++ [i]) ctx = i18nFmt i.langs i.dflt (lookupD ctx i.langKey) := by
+    (hist : List Install) (i : Install) (ctx : List (String × Option String)) :
+    installedFmt base (hist ++ [i]) ctx = i18nFmt i.langs i.dflt (lookupD ctx i.langKey).join := by
   simp [installedFmt]
 
 /-- an installation without `WithLangKey` reads the documented key `lang`, whatever keys earlier
     installations configured -/
 theorem reinstall_resets_lang_key (base : String → String → List (String × String) → String)
-    (hist : List Install) (i : Install) (ctx : List (String × String)) (hk : i.key = none) :
-    installedFmt base (hist ++ [i]) ctx = i18nFmt i.langs i.dflt (lookupD ctx "lang") := by
+    (hist : List Install) (i : Install) (ctx : List (String × Option String)) (hk : i.key = none) :
+    installedFmt base (hist ++ [i]) ctx = i18nFmt i.langs i.dflt (lookupD ctx "lang").join := by
   simp [installedFmt, Install.langKey, hk]
 
 /-- premises satisfiable / not vacuous: after `WithLangKey("locale")` and then a plain installation, a
@@ -141,7 +141,14 @@ theorem reinstall_resets_lang_key (base : String → String → List (String × 
 example : installedFmt (fun _ _ _ => "base")
     [{ langs := [("en", [("string", [("required", "is required")])]), ("es", [("string", [("required", "es obligatorio")])])], dflt := "en", key := some "locale" },
      { langs := [("en", [("string", [("required", "is required")])]), ("es", [("string", [("required", "es obligatorio")])])], dflt := "en" }]
-    [("lang", "es"), ("locale", "en")] "required" "string" [] = "es obligatorio" := by decide +kernel
+    [("lang", some "es"), ("locale", some "en")] "required" "string" [] = "es obligatorio" := by decide +kernel
+
+/-- a language value that is not a string names no language: the default language is used -/
+theorem lang_value_not_a_string (base : String → String → List (String × String) → String)
+    (hist : List Install) (i : Install) (ctx : List (String × Option String))
+    (h : lookupD ctx i.langKey = some none) :
+    installedFmt base (hist ++ [i]) ctx = i18nFmt i.langs i.dflt none := by
+  simp [installedFmt, h]
 
 /-- **Constructor invariants hold of every issue of every execution.** Every issue is built by one
     of four constructors (failing test / Required / NotNil, coercion failure, callback error,
